@@ -321,3 +321,57 @@ func TestVerif_C10_Huge2G(t *testing.T) {
 	}
 	rec.Sample("huge-2g", map[string]interface{}{"pt_len": n, "dst": "nil, 3-byte without capacity"})
 }
+
+// Additional data of more than 2^32 BLOCKS (64 GiB of address space; zero pages, nothing committed but the last page): block counters
+// narrower than the 64-bit byte length lose their upper bits. GHASH over zero blocks from the zero state stays zero, so the reference
+// only needs the non-zero end of the aad, the ciphertext and the length block.
+func TestVerif_C06_Huge64GZeroAAD(t *testing.T) {
+	rec := stats.Get("C06", "huge-64g-aad")
+	rec.Rule("thorough only: aad of 2^36 + 8*16 + 37 bytes (2^32 + 8 zero blocks from an anonymous mapping, then two non-zero blocks and a 5-byte tail), plaintext 0 and 45 bytes, 12-byte nonce: Seal must equal E(J0) xor GHASH(aad, C, lengths) by the reference (the leading zero blocks leave the GHASH state at zero) and the reference CTR. 2 cases, non-trivial (aad block count above 2^32).")
+	t.Cleanup(stats.FlushAll)
+	if !hugeGate(t, rec, 1) {
+		return
+	}
+	const zeroLen = 1<<36 + 8*16
+	const aadLen = zeroLen + 37
+	mem, err := syscall.Mmap(-1, 0, aadLen+4096, syscall.PROT_READ|syscall.PROT_WRITE, syscall.MAP_ANON|syscall.MAP_PRIVATE|syscall.MAP_NORESERVE)
+	if err != nil {
+		rec.Skipped("cannot map 64 GiB of address space: " + err.Error())
+		return
+	}
+	defer syscall.Munmap(mem)
+	for i := 0; i < 37; i++ {
+		mem[zeroLen+i] = byte(0x61 + i*7)
+	}
+	aad := mem[:aadLen]
+	a, ref := hugeAEAD(t)
+	j0 := gcmref.J0(ref, hugeNonce)
+	ej0 := make([]byte, 16)
+	ref.Encrypt(ej0, j0)
+	pt := bytes.Repeat([]byte{0x5a, 0x17, 0xc3}, 15)
+	for _, pl := range []int{0, 45} {
+		var out []byte
+		if p := vt.Catch(func() { out = a.Seal(nil, hugeNonce, pt[:pl], aad) }); p != nil {
+			vt.Fail(t, rec, "C06:seal:panic", "Seal panicked with %d bytes of aad: %v", aadLen, p)
+			return
+		}
+		rec.Case(uint64(pl)+7, true, "huge-64g-aad")
+		ct := gcmref.GCTR(ref, gcmref.CounterBlock(j0, 1), pt[:pl])
+		g := gcmref.NewGHashStream(gcmref.HashKey(ref)) // 2^32+8 zero blocks leave the state at zero
+		g.Blocks(aad[zeroLen:])
+		g.Blocks(ct)
+		sum := g.Sum(aadLen, pl)
+		want := append([]byte(nil), ct...)
+		for i := 0; i < 16; i++ {
+			want = append(want, sum[i]^ej0[i])
+		}
+		if !bytes.Equal(out, want) {
+			what := "tag"
+			if len(out) < pl || !bytes.Equal(out[:pl], ct) {
+				what = "ciphertext"
+			}
+			vt.Fail(t, rec, "C06:seal:"+what, "Seal with %d bytes of aad (%d blocks, above 2^32) and %d bytes of plaintext differs from SP 800-38D in the %s\n got %x\nwant %x", aadLen, aadLen/16, pl, what, out, want)
+		}
+	}
+	rec.Sample("huge-64g-aad", map[string]interface{}{"aad_len": aadLen, "aad_blocks": aadLen / 16})
+}
